@@ -53,7 +53,10 @@ func (d *Driver) read() {
 
 		b = append(b, rb...)
 
-		if d.Channel.PromptPattern.Match(b) { //nolint: nestif
+		// keep examining the buffer for as long as it holds a complete message: what is left after
+		// dropping an echoed request may already be a complete reply, and it has to be filed
+		// before the next read appends another message to it.
+		for d.Channel.PromptPattern.Match(b) { //nolint: nestif
 			if bytes.Contains(b, []byte("</rpc>")) {
 				// we read past the input, yay this is good, but we don't care that much, we just
 				// need to reset the buffer... *but* because there is a small read delay in channel
